@@ -144,6 +144,9 @@ pub enum Signal {
     Const { v: f64 },
     /// noise with 60 decades of dynamic range (kernel checks)
     Wide { seed: u64 },
+    /// ordinary noise in most channels, but one channel (the last) carries occasional +-MAX, +-inf and NaN samples:
+    /// the other channels must not notice
+    Extreme { seed: u64, last_ch: usize },
     /// silence with sparse NaNs and finite impulses (kernels must agree on NaN-ness too)
     NanSparse { seed: u64 },
     /// noise of uniformly tiny amplitude `scale` (subnormal range of the sample type: flush-to-zero differences)
@@ -176,6 +179,21 @@ impl Signal {
                 acc
             }
             Signal::Const { v } => *v,
+            Signal::Extreme { seed, last_ch } => {
+                if ch == *last_ch {
+                    let h = mix(*seed ^ n.wrapping_mul(31));
+                    match h % 11 {
+                        0 => f64::MAX,
+                        1 => -f64::MAX,
+                        2 => f64::INFINITY,
+                        3 => f64::NAN,
+                        4 => f64::NEG_INFINITY,
+                        _ => noise(*seed, ch, n),
+                    }
+                } else {
+                    noise(*seed, ch, n)
+                }
+            }
             Signal::NanSparse { seed } => {
                 let h = mix(*seed ^ n ^ ((ch as u64) << 44));
                 match h % 23 {
@@ -280,6 +298,8 @@ pub enum ChunkVal {
     MaxPlus1,
     UsizeMax,
     N(usize),
+    /// 2^pow + delta (truncating casts: 2^32 + 1 looks like 1 after `as u32`)
+    Pow2Plus { pow: u8, delta: usize },
 }
 
 #[derive(Clone, Debug, Serialize, Deserialize, PartialEq)]
@@ -395,4 +415,7 @@ pub struct Scenario {
     /// simulated seconds covered by the discrete-event profile (0 otherwise)
     #[serde(default)]
     pub sim_seconds: f64,
+    /// the last op is executed this many more times (streams of tens of millions of calls are not written out)
+    #[serde(default)]
+    pub repeat: u64,
 }
